@@ -127,7 +127,7 @@ def run(ctx: Ctx) -> Report:
     rep.parts["binding_self_test"] = {"corrupted_cases_rejected": 2}
     rep.samples.append({"kind": "masked categorical case", **{k: evs[0][k] for k in ("w", "m", "probs", "mode", "atoms")}})
     rep.samples.append({"kind": "policy case", **{k: pcs[0][k] for k in ("kind", "mode", "comps")}})
-    rep.undecided += ["a Q policy departs from the greedy action with probability at most epsilon for 0 < epsilon < 1 (statistical)"]
+    rep.undecided += ["a Q policy departs from the greedy action with probability at most epsilon: decided statistically (2400 keys, 6 sigma) at epsilon = 0.3 on the sampled masks; the bound itself leaves room (a uniform exploratory draw departs with epsilon*(1-1/k))"]
     rep.assumptions += ["rank vectors of unmasked preferences are obtained through the public API only (evaluate_action / q_values)"]
     return rep
 
